@@ -250,7 +250,7 @@ def tool_chain(src, r, idx):
         steps.append(r.choice(menu))
     log = []
     for st in steps:
-        rc, out = e2v.sh(st, timeout=120, env={"E2FSPROGS_UNDO_DIR": WORK, "MKE2FS_CONFIG": "/dev/null"})
+        rc, out = e2v.sh(st, timeout=120, env=e2v.tool_env(src, E2FSPROGS_UNDO_DIR=WORK))
         log.append({"cmd": " ".join(os.path.basename(x) if "/" in x else x for x in st), "rc": rc})
         if rc == -9:
             return {"steps": log}, "tool timed out"
